@@ -43,7 +43,7 @@ claim("C06", "Theorems C06_rx (language of the compiled $deref = the specificati
       "Literal components free of + * ] ( ) ,; C06_exact needs index register and scale named together (otherwise D17); "
       "an independent component-agreement oracle written from the property text judges the one-operand cases of the differential.")
 claim("C07", "Theorems C07_pipeline (whole operation: reported texts are runs of whole instructions of the listing, reported addresses those of their first instructions); C07_all / C07_first (every reported match is the text of whole consecutive records n..n+k-1 and the reported address "
-      "is that of record n), C07_no_span_*; C07_any_counterexample for the shipped @any." + COMMON, "DESIGN.md 0.2, 7 C07",
+      "is that of record n), C07_no_span_*, C07_plain_items / C07_plain_items_windows / C07_plain_items_reported (Properties/C07Items.lean: a rule of k plain items consumes exactly one instruction per item - every reported window is k consecutive records); C07_any_counterexample for the shipped @any." + COMMON, "DESIGN.md 0.2, 7 C07",
       "Capture-free literal fragment with any operator leading, compiled regex without empty match (syntactic class nonNull proved); @any: finding D6.")
 claim("C08", "Theorems C08_inst, C08_line, C08_listing, C08_stream: parser o renderer over the objdump grammar yields exactly one stream "
       "instruction per instruction line (address, mnemonic token, normal-form operands), nothing for other lines, never fails." + COMMON,
